@@ -15,6 +15,9 @@
 (*     nothing the client can observe,                                      *)
 (*   - the server receives exactly the client's messages, in order,         *)
 (*   - the grammar has no dead end: a script can always be finished.        *)
+(* WrapMC_handover.cfg sets the deviation HandsOverSendersMessage: TLC must  *)
+(* refute it (MsgsPrefix / ServerGotClientMsgs fail: the receiver got what   *)
+(* the sender wrote into its message after the send had returned).           *)
 (***************************************************************************)
 EXTENDS Wrap
 
